@@ -57,7 +57,7 @@ def honourable(fn, p):
 
 @st.composite
 def params_s(draw, fn, tier):
-    big = 12 if tier == 'quick' else 16
+    big = 12 if tier == 'quick' else 24
     valid = draw(st.integers(0, 9)) < 7
     wild_dim = st.integers(1, big)
     p = {}
@@ -241,8 +241,74 @@ def oracle(case, ctx):
     ctx.ev.case(case, nt=True, classes=[fn + ':state'] + ([fn + ':honourable'] if hon else []), key=[fn, p, d])
 
 
+# ------------------------------------------------------------------ rare random outcomes, reached with an adversarial generator
+
+
+@st.composite
+def big_params_s(draw, fn):
+    """large valid shapes (populations hundreds of times the sample size)"""
+    n = draw(st.sampled_from([17, 21, 25, 33]))
+    m = draw(st.sampled_from([17, 21, 25, 33]))
+    if fn in ('rooms', 'memory_rooms'):
+        p = {'shape': [n, m], 'layout': [draw(st.integers(1, 2)), draw(st.integers(1, 2))]}
+        if fn == 'memory_rooms':
+            p.update({'colors': ['RED', 'GREEN', 'BLUE'], 'num_beacons': draw(st.integers(1, 2)), 'num_exits': draw(st.integers(2, 3))})
+        return p
+    if fn == 'memory':
+        return {'shape': [n, m], 'colors': ['RED', 'BLUE']}
+    if fn == 'crossing':
+        return {'shape': [n, m], 'num_rivers': draw(st.integers(1, 5))}
+    if fn == 'dynamic_obstacles':
+        return {'shape': [n, m], 'num_obstacles': draw(st.integers(1, 6)), 'random_agent': draw(st.booleans())}
+    if fn == 'empty':
+        return {'shape': [n, m], 'random_agent': draw(st.booleans()), 'random_exit': draw(st.booleans())}
+    return {'shape': [n, m]}
+
+
+def strat_adv(tier):
+    return st.sampled_from(FUNCTIONS).flatmap(lambda fn: st.fixed_dictionaries({
+        'fn': st.just(fn), 'p': st.one_of(params_s(fn, tier), params_s(fn, tier), big_params_s(fn)), 'mode': st.sampled_from(['low', 'high']),
+        'prefix': st.sampled_from([0, 1, 2, 4, 8, 12, 24, 40, 80]), 'salt': st.integers(0, 7)}))
+
+
+def oracle_adv(case, ctx):
+    """every call of the Generator API is answered with a legal outcome chosen adversarially (extremes for the first calls, then
+    cycling): outcomes that a seeded generator produces once in a billion runs.  Same oracle as `well_formed`."""
+    from vgv.advrng import AdvRng
+    fn, p = case['fn'], case['p']
+    hon = honourable(fn, p)
+    kw = dict(p)
+    kw['shape'] = Shape(*p['shape'])
+    if 'layout' in kw:
+        kw['layout'] = tuple(kw['layout'])
+    if 'colors' in kw:
+        kw['colors'] = set(go.Color[c] for c in kw['colors'])
+    if fn == 'crossing':
+        kw['object_type'] = go.Wall
+    rng = AdvRng(case['mode'], case['prefix'], case['salt'])
+    what = f'{fn}({p}) under {case["mode"]} draws for the first {case["prefix"]} generator calls'
+    try:
+        s = REG[fn](**kw, rng=rng)
+    except ValueError as e:
+        if hon:
+            ctx.fail(f'{what}: ValueError ("{e}") for parameters the function documents as valid', {'kind': 'refused', 'fn': fn})
+        ctx.ev.case(case, nt=False, classes=[fn + ':ValueError'])
+        return
+    except Exception as e:  # noqa: BLE001
+        ctx.fail(f'{what}: raised {type(e).__name__} ("{e}") instead of ValueError or a state', {'kind': 'wrong_exception', 'fn': fn, 'exc': type(e).__name__})
+        return
+    d = objs.canon_state(s)
+    bad = malformed(fn, p, d)
+    if bad:
+        ctx.fail(f'{what}: malformed initial state: {"; ".join(bad[:3])}', {'kind': 'malformed', 'fn': fn})
+    ctx.ev.case(case, nt=True, classes=[fn + ':state', 'mode:' + case['mode'], 'prefix>=12' if case['prefix'] >= 12 else 'prefix<12'] + (['large_shape'] if max(p['shape']) >= 17 else []) + sorted({'api:' + a for a in rng.api}))
+
+
 CHECKS = [
     Check('well_formed', oracle, strategy=strat, examples={'quick': 1000, 'thorough': 6000}, shards={'quick': 4, 'thorough': 16},
           rule='8 reset functions x parameters (valid by construction ~70%, unconstrained otherwise: shapes 1..12/16, layouts 1..4, counts from -1 past capacity, colour sets of 0..5 with/without NONE) x seeds',
           required=[f + ':state' for f in FUNCTIONS] + [f + ':ValueError' for f in FUNCTIONS]),
+    Check('adversarial_generator', oracle_adv, strategy=strat_adv, examples={'quick': 500, 'thorough': 3000}, shards={'quick': 4, 'thorough': 16},
+          rule='the same functions and parameters with an adversarial Generator (legal extreme outcomes for the first 0-80 calls, cycling afterwards): well-formed state or ValueError',
+          required=[f + ':state' for f in FUNCTIONS] + ['mode:low', 'mode:high', 'prefix>=12', 'large_shape', 'api:integers', 'api:choice', 'api:shuffle']),
 ]
